@@ -1,5 +1,6 @@
 import XixiKV.Proofs.EngineMerge.Frame
 import XixiKV.Properties.C02
+import XixiKV.Proofs.Fio
 /-!
 # C20 — a backup opens to the state at the time of the backup
 
@@ -89,6 +90,25 @@ theorem C20_backup (s : St) (db : DB) (g : GDir) (dest : String) (cfg' : Cfg)
   · intro k v; exact put_get_other S k v db hSdb dest hne
   · intro k; exact delete_get_other S k db hSdb dest hne
   · exact syncDB_get_other S db hSdb dest hne
+
+/-! ## the mmap path of `Backup`: `ResetFileSize` shrinks the 512 MiB-extended files first, and the
+    source keeps appending afterwards (`Model/Fio.lean`) -/
+
+/-- After `ResetFileSize` (any `MMap` state) the file on disk has exactly the logical size — this is
+    the file `CopyDir` copies — and the next write and the next read re-map and succeed. -/
+theorem C20_mmap_reset (B : Nat) (hB : 0 < B) (m : Fio.MMap) (b : ByteArray) (off len : Nat) :
+    m.resetFileSize.1.os.bytes.size = m.virt ∧
+    (m.resetFileSize.1.write B b).2 = .n b.size ∧
+    (0 < b.size → (m.resetFileSize.1.write B b).1.mapped = true) ∧
+    (m.resetFileSize.1.read B off len).2 ≠ .fault :=
+  ⟨Fio.size_ftruncate _ _, Fio.Fio_reset_then_access B hB m b off len⟩
+
+/-- The repair 5e9ebf0 is necessary: with a `ResetFileSize` that cuts the file but keeps the
+    mapping, the first non-empty write after a backup stores beyond the end of the file. -/
+theorem C20_mmap_reset_needs_unmap (B : Nat) (hB : 0 < B) (f : Fio.OsFile) (b : ByteArray)
+    (h0 : 0 < b.size) (hb : b.size ≤ B) :
+    ((Fio.MMap.open B f).resetFileSizeOld.1.write B b).2 = .fault :=
+  Fio.Fio_needs_unmap B hB f b h0 hb
 
 /-! ## non-vacuity: the example state of C02 (one file, one record), backed up to "b" -/
 
